@@ -127,6 +127,8 @@ def run(ctx):
                          findings.sqla_semantic_triggers, "coverage:" + style, cap=150, profile=lane2)
                 ctx.cls("style:" + style)
     for style in STYLES:
+        SC.math_of_int_lane(ctx, ctx.rng("mathint" + style), make_select(style, lambda x: x),
+                            findings.sqla_semantic_triggers, profile=clean)
         SC.big_list_lane(ctx, ctx.rng("biglist" + style), make_select(style, lambda x: x),
                          findings.sqla_semantic_triggers, ctx.pick(2, 20), profile=clean)
         SC.machine_lane(ctx, ctx.rng("machine" + style), make_select(style, lambda x: x),
